@@ -42,11 +42,17 @@ def tok_pyval(v):
 def render_tree(sensors):
     toks = ["T"]
     for node in sensors.values():
+        if not hasattr(node, "sensor_id") or not hasattr(node, "children"):
+            toks += ["N", "?" + type(node).__name__]      # not a Sensor object (e.g. a raw dict after a bad load)
+            continue
         toks += ["N", str(node.sensor_id), "--" if node.type is None else str(int(node.type)),
                  "--" if node.sketch_name is None else enc_str(node.sketch_name),
                  "--" if node.sketch_version is None else enc_str(node.sketch_version),
                  str(node.battery_level), enc_str(node.protocol_version), str(node.heartbeat)]
         for ch in node.children.values():
+            if not hasattr(ch, "values") or not hasattr(ch, "id"):
+                toks += ["C", "?" + type(ch).__name__]
+                continue
             toks += ["C", str(ch.id), str(int(ch.type)), enc_str(ch.description)]
             for k, v in ch.values.items():
                 toks += ["V", tok_key(k), tok_pyval(v)]
@@ -62,6 +68,8 @@ def tok_key(k):
 def render_state(gw):
     toks = render_tree(gw.sensors)
     for node in gw.sensors.values():
+        if not hasattr(node, "sensor_id") or not hasattr(node, "queue"):
+            continue
         toks += ["X", str(node.sensor_id), "1" if node.reboot else "0", "Q"]
         toks += [enc_str(q) for q in node.queue]
         for cid, dch in node.new_state.items():
